@@ -822,9 +822,9 @@ pub fn eval(rule: &Value, data: &Value, t: &mut Trace) -> MOut {
             };
             let is_all = op == "all";
             if n == 0 {
-                if statically_invalid(args[1]) {
-                    return MOut::Unj("malformed predicate that is never evaluated (empty collection)");
-                }
+                // C14: "empty and null collections make all and some false" - whatever the
+                // predicate is; it is never evaluated, so nothing in it can fail (as for the
+                // unselected operands of C05)
                 return MOut::Val(Value::Bool(op == "none"));
             }
             // all: decided by first falsy; some/none: decided by first truthy
